@@ -3,7 +3,10 @@
 // Generator: a precision p, 2..6 leaf sketches whose key multisets are unions of index ranges
 // over one shared domain (so leaves overlap, repeat keys, and land in the sparse regime, at the
 // sparse->dense transition, or in the dense regime; a leaf may also be forced dense half-way and
-// then keep receiving keys), and two different merge trees over the same leaves.
+// then keep receiving keys; a run may re-add the keys of an earlier run of the same leaf, and a
+// Count() / MarshalBinary() / marshal-unmarshal-continue step may sit between two runs, so that
+// keys are re-added after the sparse sketch flushed its pending set), and two different merge
+// trees over the same leaves.
 // Oracle:
 //   - commutative + associative: both trees yield byte-identical sketches (MarshalBinary) with equal Count();
 //   - union: the merged sketch is byte-identical to the dense form of ONE sketch that was fed every
@@ -15,7 +18,11 @@
 //     before a breach counts;
 //   - marshal round-trip (merged result and two leaves, sparse or dense):
 //     UnmarshalBinary(MarshalBinary(s)) has the same Count() and merges identically;
-//   - Clone is independent of the original (one leaf per case, both directions).
+//   - Clone is independent of the original (one leaf per case, both directions);
+//   - Count() is an observation (every leaf exactly as its Add history left it, pending set
+//     included, and every mid-history step): asking twice gives the same number, the clone answers
+//     the same, and Count() taken BEFORE MarshalBinary equals Count() of the unmarshalled sketch;
+//     at p=16 a leaf's own estimate is within the error bound of its distinct keys (same re-draw rule).
 package c35_hll
 
 import (
@@ -55,6 +62,13 @@ func init() {
 type run struct {
 	Start, Count, Stride int
 	DenseBefore          bool // force the sketch into its dense representation before this run
+	// Pre is a step executed on the sketch before this run's keys are added: "" (nothing),
+	// "count" (Count()), "marshal" (MarshalBinary(), result dropped) or "reload" (the sketch is
+	// replaced by UnmarshalBinary(MarshalBinary(sketch)) and the history continues on the copy).
+	// None of them may change what the sketch estimates.
+	Pre string
+	// Repeat: this run re-adds keys of an earlier run of the same leaf (same Start and Stride).
+	Repeat bool
 }
 
 type leafSpec struct{ Runs []run }
@@ -132,6 +146,25 @@ func genCase(t *rapid.T) caseSpec {
 				r.Count = rapid.IntRange(maxCount/2, maxCount).Draw(t, "count")
 			}
 			r.DenseBefore = pct(t, "denseBefore") < 20
+			if j > 0 && pct(t, "repeat") < 45 {
+				// re-add (a prefix of) the keys of an earlier run: duplicates across a flush of the
+				// sparse sketch's pending set, not only inside one flush window
+				prev := ls.Runs[rapid.IntRange(0, j-1).Draw(t, "repeatOf")]
+				r.Repeat, r.Start, r.Stride = true, prev.Start, prev.Stride
+				if prev.Count > 0 && pct(t, "repeatAll") < 64 {
+					r.Count = prev.Count
+				} else {
+					r.Count = rapid.IntRange(0, prev.Count).Draw(t, "repeatCount")
+				}
+			}
+			switch c := pct(t, "pre"); {
+			case c < 16:
+				r.Pre = "count"
+			case c < 32:
+				r.Pre = "marshal"
+			case c < 42:
+				r.Pre = "reload"
+			}
 			ls.Runs = append(ls.Runs, r)
 		}
 		cs.Leaves = append(cs.Leaves, ls)
@@ -165,12 +198,28 @@ func newSketch(p uint8) *hll.Plus {
 	return s
 }
 
-// buildLeaf adds the leaf's keys (with the given salt) and records them in truth.
-func buildLeaf(p uint8, ls leafSpec, domain int, salt uint64, truth map[int]struct{}) *hll.Plus {
+// buildLeaf adds the leaf's keys (with the given salt) and records them in truth. Before every
+// mid-history step (run.Pre) obs, when not nil, is shown the sketch.
+func buildLeaf(p uint8, ls leafSpec, domain int, salt uint64, truth map[int]struct{}, obs func(stage string, s *hll.Plus)) *hll.Plus {
 	s := newSketch(p)
-	for _, r := range ls.Runs {
+	for ri, r := range ls.Runs {
 		if r.DenseBefore {
 			_ = s.Merge(newSketch(p)) // Merge converts the receiver to the dense representation
+		}
+		if r.Pre != "" && obs != nil {
+			obs(fmt.Sprintf("before the %q step ahead of run %d", r.Pre, ri), s)
+		}
+		switch r.Pre {
+		case "count":
+			_ = s.Count()
+		case "marshal":
+			_ = marshal(s)
+		case "reload":
+			u := &hll.Plus{}
+			if err := u.UnmarshalBinary(marshal(s)); err != nil {
+				panic(fmt.Sprintf("UnmarshalBinary(MarshalBinary()) in a leaf history: %v", err))
+			}
+			s = u
 		}
 		for j := 0; j < r.Count; j++ {
 			idx := (r.Start + j*r.Stride) % domain
@@ -181,6 +230,68 @@ func buildLeaf(p uint8, ls leafSpec, domain int, salt uint64, truth map[int]stru
 		}
 	}
 	return s
+}
+
+// pendingDupOfFlushed models the sparse sketch's pending set over the leaf's history (flushed when
+// it holds more than m/100 entries, and by Count / MarshalBinary) and reports whether, at the end
+// of the history, a key is pending that was already flushed into the sorted list earlier, and
+// whether any flush happened at all. It is used for the class histogram only (it ignores hash
+// collisions and the switch to the dense form, which the caller knows from the sketch itself).
+func pendingDupOfFlushed(p uint8, ls leafSpec, domain int) (dup, flushed bool) {
+	m := 1 << p
+	pending, list := map[int]struct{}{}, map[int]struct{}{}
+	flush := func() {
+		if len(pending) == 0 {
+			return
+		}
+		flushed = true
+		for k := range pending {
+			list[k] = struct{}{}
+		}
+		pending = map[int]struct{}{}
+	}
+	for _, r := range ls.Runs {
+		if r.Pre != "" || r.DenseBefore {
+			flush()
+		}
+		for j := 0; j < r.Count; j++ {
+			pending[(r.Start+j*r.Stride)%domain] = struct{}{}
+			if len(pending)*100 > m {
+				flush()
+			}
+		}
+	}
+	for k := range pending {
+		if _, ok := list[k]; ok {
+			return true, flushed
+		}
+	}
+	return false, flushed
+}
+
+// countIsObservation checks, without touching s, that Count() of the sketch exactly as it is
+// (a sparse sketch may hold a pending set) is stable (asked twice; asked of a second clone) and
+// survives MarshalBinary -> UnmarshalBinary, where the reference Count() is taken BEFORE the
+// sketch is marshalled. It returns the estimate.
+func countIsObservation(s *hll.Plus) (cnt uint64, key, msg string) {
+	a := s.Clone().(*hll.Plus)
+	c0 := a.Count()
+	if c1 := a.Count(); c1 != c0 {
+		return c0, "count-not-stable", fmt.Sprintf("Count() gives %d, asked again %d", c0, c1)
+	}
+	b := s.Clone().(*hll.Plus)
+	data := marshal(b) // marshalled first, counted afterwards
+	if c2 := b.Count(); c2 != c0 {
+		return c0, "marshal-changes-count", fmt.Sprintf("Count() is %d on the sketch as built, but %d on an identical clone after its MarshalBinary()", c0, c2)
+	}
+	u := &hll.Plus{}
+	if err := u.UnmarshalBinary(data); err != nil {
+		return c0, "unmarshal-error", fmt.Sprintf("UnmarshalBinary(MarshalBinary()) fails: %v (%d bytes)", err, len(data))
+	}
+	if cu := u.Count(); cu != c0 {
+		return c0, "marshal-changes-count", fmt.Sprintf("Count %d before MarshalBinary, %d after UnmarshalBinary", c0, cu)
+	}
+	return c0, "", ""
 }
 
 // evalTree merges clones of the leaves in the order the tree prescribes. The right-hand
@@ -242,7 +353,7 @@ func mergedEstimate(cs caseSpec, salt uint64) (est uint64, truth int) {
 	tr := map[int]struct{}{}
 	leaves := make([]*hll.Plus, len(cs.Leaves))
 	for i, ls := range cs.Leaves {
-		leaves[i] = buildLeaf(cs.P, ls, cs.Domain, salt, tr)
+		leaves[i] = buildLeaf(cs.P, ls, cs.Domain, salt, tr, nil)
 	}
 	m, err := evalTree(leaves, cs.Tree1)
 	if err != nil {
@@ -289,12 +400,24 @@ func checkCase(cs caseSpec, salt uint64) (string, string) {
 	truth := map[int]struct{}{}
 	leaves := make([]*hll.Plus, len(cs.Leaves))
 	perLeaf := make([]map[int]struct{}, len(cs.Leaves))
+	var obsKey, obsMsg string
 	for i, ls := range cs.Leaves {
 		perLeaf[i] = map[int]struct{}{}
-		leaves[i] = buildLeaf(p, ls, cs.Domain, salt, perLeaf[i])
+		leaves[i] = buildLeaf(p, ls, cs.Domain, salt, perLeaf[i], func(stage string, s *hll.Plus) {
+			// ---- a mid-history sketch: Count() is an observation and survives a marshal round-trip
+			if obsKey != "" {
+				return
+			}
+			if _, k, m := countIsObservation(s); k != "" {
+				obsKey, obsMsg = k, fmt.Sprintf("leaf %d, %s: %s", i, stage, m)
+			}
+		})
 		for k := range perLeaf[i] {
 			truth[k] = struct{}{}
 		}
+	}
+	if obsKey != "" {
+		return obsKey, obsMsg
 	}
 	// classification (on clones: MarshalBinary/Count flush the pending set of a sparse sketch,
 	// and the merges below should see the leaves exactly as Add left them)
@@ -336,6 +459,65 @@ func checkCase(cs caseSpec, salt uint64) (string, string) {
 	}
 	if overlap || (nSparse > 0 && nDense > 0) {
 		rec.NonTrivial(fmt.Sprintf("%+v", cs))
+	}
+
+	// ---- every leaf exactly as its Add history left it (a sparse leaf may hold a pending set whose
+	// keys are already in its sorted list): Count() is an observation, it survives the marshal
+	// round-trip (reference taken BEFORE MarshalBinary), and at p=16 it is within the error bound
+	// of the leaf's distinct keys. Runs on clones; the merges below see the leaves untouched.
+	{
+		histRepeat, histStep, anyDup, anyFlushedSparse := false, false, false, false
+		for i, l := range leaves {
+			sparse := isSparse(l)
+			dup, flushed := pendingDupOfFlushed(p, cs.Leaves[i], cs.Domain)
+			if sparse && dup {
+				anyDup = true
+			}
+			if sparse && flushed {
+				anyFlushedSparse = true
+			}
+			for _, r := range cs.Leaves[i].Runs {
+				histRepeat = histRepeat || (r.Repeat && r.Count > 0)
+				histStep = histStep || r.Pre != ""
+			}
+			cnt, k, m := countIsObservation(l)
+			if k != "" {
+				return k, fmt.Sprintf("leaf %d (sparse=%v, pending duplicates of flushed keys=%v): %s", i, sparse, dup, m)
+			}
+			if p == boundPrecision {
+				breach := func(est uint64, tr int) bool { return math.Abs(float64(est)-float64(tr)) > tolerance(p, tr) }
+				if breach(cnt, len(perLeaf[i])) {
+					rec.Class("leaf-bound:redrawn")
+					persistent := true
+					detail := fmt.Sprintf("leaf %d (sparse=%v): estimate %d vs %d distinct keys (tolerance %.1f)", i, sparse, cnt, len(perLeaf[i]), tolerance(p, len(perLeaf[i])))
+					for r := uint64(1); r <= 3; r++ {
+						tr := map[int]struct{}{}
+						est := buildLeaf(p, cs.Leaves[i], cs.Domain, salt+r*0x9E3779B97F4A7C15, tr, nil).Count()
+						detail += fmt.Sprintf("; redraw %d: %d vs %d", r, est, len(tr))
+						if !breach(est, len(tr)) {
+							persistent = false
+							break
+						}
+					}
+					if persistent {
+						return "error-bound-breached", detail
+					}
+				}
+			}
+		}
+		if anyDup {
+			rec.Class("history:sparse-leaf-with-pending-duplicates-of-flushed-keys")
+		} else if anyFlushedSparse {
+			rec.Class("history:sparse-leaf-flushed,no-pending-duplicate")
+		} else {
+			rec.Class("history:no-sparse-leaf-flushed")
+		}
+		if histRepeat {
+			rec.Class("history:run-repeats-earlier-run")
+		}
+		if histStep {
+			rec.Class("history:count/marshal/reload-between-runs")
+		}
 	}
 
 	// ---- commutative + associative: two trees, one result
@@ -440,8 +622,11 @@ func checkCase(cs caseSpec, salt uint64) (string, string) {
 		if i > 0 {
 			name = fmt.Sprintf("leaf %d", picked[i-1])
 		}
+		cnt := s.Count() // before MarshalBinary: the estimate of the sketch as it is
 		b := marshal(s)
-		cnt := s.Count()
+		if c := s.Count(); c != cnt {
+			return "marshal-changes-count", fmt.Sprintf("%s: Count %d before its MarshalBinary, %d after", name, cnt, c)
+		}
 		u := &hll.Plus{}
 		if err := u.UnmarshalBinary(b); err != nil {
 			return "unmarshal-error", fmt.Sprintf("%s: UnmarshalBinary(MarshalBinary()) fails: %v (%d bytes)", name, err, len(b))
